@@ -143,7 +143,9 @@ def verify_full(syst, expected, label, seed):
         else:
             raise PropertyViolation("index-range", "%s: System[%d] returned a molecule (len %d)" % (label, bad, n))
     rng = np.random.default_rng(seed + 1)
-    slices = [slice(None), slice(None, None, -1), slice(1, None, 2), slice(-2, None), slice(None, -1)]
+    slices = [slice(None), slice(None, None, -1), slice(1, None, 2), slice(-2, None), slice(None, -1),
+              slice(-n, None, -1), slice(-n, None, -3), slice(n - 1, None, -1), slice(None, -n, 1), slice(None, -n - 1, -1),
+              slice(n, None), slice(1, 0), slice(None, 0), slice(0, None, -1), slice(-n - 1, None)]
     for _ in range(3):
         a, b = (int(v) for v in rng.integers(-n - 2, n + 3, 2))
         c = int(rng.choice([-3, -2, -1, 1, 2, 3]))
@@ -496,7 +498,34 @@ def long_runs(tier, seed):
     return out, True
 
 
+def many_kinds(tier, seed):
+    """130 (thorough: 300) different single-residue kinds in one file; a few of them belong to loaded species, whose
+    kind index (order of first appearance) sweeps through all values - including those that mean something as a byte,
+    a character or a small table index."""
+    nk = 300 if tier == "thorough" else 130
+    rng = np.random.default_rng(int(seed) + 99)
+    out = []
+    idx = sorted(set(range(30, 50)) | {0, 1, 57, 62, 63, 64, 90, 91, 92, 93, 94, 122, 123, 124, 125, 126, 127, 128, 129, nk - 1})
+    for start in range(0, len(idx), 6):
+        chosen = [k for k in idx[start:start + 6] if k < nk]
+        species = {}
+        for k in range(nk):
+            nm = "S%d" % k if k in chosen else "K%d" % k
+            species[nm] = [["R%03d" % k if k < 1000 else "Q%d" % k, ["C%d" % (i + 1) for i in range(1 + k % 3)]]]
+        seq = []
+        for k in range(nk):
+            nm = "S%d" % k if k in chosen else "K%d" % k
+            seq += [nm] * (1 + (k in chosen) * 2)
+        for k in chosen:                      # further instances of the loaded species at the end
+            seq += ["S%d" % k, "K%d" % ((k + 1) % nk) if (k + 1) % nk not in chosen else "S%d" % k]
+        out.append({"species": species, "sequence": seq, "load_order": ["S%d" % k for k in reversed(chosen)],
+                    "seed": int(seed) * 31 + start, "incremental": bool(start % 2)})
+    return out, True
+
+
 SUBCHECKS = [
+    Sub("kinds", check, enumerate=many_kinds,
+        note="files with 130 / 300 residue kinds; loaded species at kind indices 0, 1, 30..49, 57, 62..64, 90..94, 122..129, last"),
     Sub("runs", check, enumerate=long_runs,
         note="multi-residue species in uninterrupted runs of 257 (quick) / 255..1025 (thorough) instances"),
     Sub("exhaustive", check, enumerate=exhaustive,
